@@ -21,17 +21,17 @@ func (Engine) Scenarios(property string) []string {
 	case "C01":
 		return []string{"model", "disk"}
 	case "C02":
-		return []string{"model", "disk"}
+		return []string{"model", "disk", "readonly"}
 	case "C03":
 		return []string{"model-untracked", "disk-untracked"}
 	case "C04":
 		return []string{"model", "disk"}
 	case "C05":
-		return []string{"model-outcomes"}
+		return []string{"model-outcomes", "model-outcomes-enum"}
 	case "C06":
 		return []string{"model", "model-untracked"}
 	case "C08":
-		return []string{"disk", "disk-untracked"}
+		return []string{"disk", "disk-untracked", "disk-edits"}
 	case "C11":
 		return []string{"model-halt", "disk-halt"}
 	case "C16":
@@ -41,7 +41,7 @@ func (Engine) Scenarios(property string) []string {
 	case "C18":
 		return []string{"model-exec"}
 	case "C29":
-		return []string{"lifecycle"}
+		return []string{"lifecycle", "disk-lifecycle"}
 	}
 	return componentScenarios(property)
 }
@@ -50,7 +50,7 @@ func (Engine) Generate(property, scenario string, seed uint64, tier string) *sim
 	p := &simkit.Plan{Engine: "syncsim", Scenario: scenario, Property: property, Seed: seed, Cfg: map[string]int64{}}
 	r := simkit.NewRand(seed, 1)
 	switch scenario {
-	case "model", "model-untracked", "model-outcomes", "model-halt", "model-exec", "lifecycle", "disk", "disk-untracked", "disk-halt", "disk-escape":
+	case "model", "model-untracked", "model-outcomes", "model-outcomes-enum", "model-halt", "model-exec", "lifecycle", "disk", "disk-untracked", "disk-halt", "disk-escape", "disk-lifecycle", "disk-edits":
 		genModel(p, r, tier)
 	case "links-scan", "links-mixed":
 		genLinks(p, r, tier)
@@ -62,7 +62,9 @@ func (Engine) Generate(property, scenario string, seed uint64, tier string) *sim
 
 func (Engine) Execute(t *testing.T, plan *simkit.Plan) *simkit.Result {
 	switch plan.Scenario {
-	case "model", "model-untracked", "model-outcomes", "model-halt", "model-exec", "lifecycle", "disk", "disk-untracked", "disk-halt", "disk-escape", "links-scan", "links-mixed":
+	case "model-outcomes-enum":
+		return execOutcomeEnumeration(t, plan)
+	case "model", "model-untracked", "model-outcomes", "model-halt", "model-exec", "lifecycle", "disk", "disk-untracked", "disk-halt", "disk-escape", "disk-lifecycle", "disk-edits", "links-scan", "links-mixed":
 		return execSession(t, plan)
 	}
 	if r := execComponent(t, plan); r != nil {
